@@ -110,6 +110,11 @@ def grow_unit(op):
             e.fields["_bonds"] = ListV([])
         before = {f: NP._copy(e.fields[f].data) for f in ("_coords", "_atomic_charges", "_weights")}
         na_new = na if na else 2
+        # a geometry with another number of atoms cannot become a conformer: the call is refused, and a refused call leaves the
+        # ensemble as it was (rectangular, same conformers) -- "after any sequence of ... appends, extends"
+        misfit = V.choose([False, True], "geometry-has-another-atom-count") if nc > 0 else False
+        if misfit:
+            na_new = na + 1
         if op == "append":
             g = M.mk_mol(V, "Molecule", na_new, ((0, 1),), name="g")
             args, k = [g], 1
@@ -124,7 +129,7 @@ def grow_unit(op):
                 o = M.mk_ens(V, 2, na_new, name="o")
                 args, k = [o], 2
                 new_coords = o.fields["_coords"].data
-        V.witness(lambda ev: {"op": op, "nc": nc, "na": na, "k": k, "signature": f"{op}"})
+        V.witness(lambda ev: {"op": op, "nc": nc, "na": na, "k": k, "misfit": misfit, "signature": f"{op}" + ("/misfit" if misfit else "")})
         V.cover()
         out = V.method(e, op, args, qual=f"{ENS}.{op}")
         if nc == 0 and na == 0:
@@ -132,6 +137,12 @@ def grow_unit(op):
             # then requires atoms, which an empty ensemble does not have -> must not silently succeed with 0 atoms
             if out.returned:
                 M.ensure_rect(V, e, "post/rect")
+            return
+        if misfit:
+            V.ensure("misfit/refused", z3.BoolVal(not out.returned))
+            M.ensure_rect(V, e, "misfit/rect")
+            same = all(isinstance(e.fields[f], NdArr) and NP.shape_of(e.fields[f].data) == NP.shape_of(before[f]) for f in before)
+            V.ensure("misfit/ensemble-left-as-it-was", I.and_(same, *([_rows_equal(I, e.fields[f].data, before[f]) for f in before] if same else [])))
             return
         V.ensure("post/returns", z3.BoolVal(out.returned))
         if not out.returned:
@@ -187,6 +198,7 @@ def _transforms(V):
     e = M.mk_ens(V, nc, na)
     op = V.choose(["scale", "invert", "translate1", "translate2", "rotate"], "op")
     q0, w0 = NP._copy(e.fields["_atomic_charges"].data), NP._copy(e.fields["_weights"].data)
+    V.witness(lambda ev: {"op": "transform", "which": op, "nc": nc, "na": na, "signature": f"transform/{op}"})
     V.cover()
     if op == "scale":
         f = V.sym("f", "real")
@@ -204,9 +216,20 @@ def _transforms(V):
         if nc > 0:
             V.ensure("post/returns", z3.BoolVal(out.returned))
     else:
-        R = NP.mk([[V.sym(f"r{i}{j}", "real") for j in range(3)] for i in range(3)])
+        # the matrix: 3x3, or something that is not one rotation (a stack of two matrices, a 3x4 matrix): whatever the call does
+        # with those, the ensemble stays rectangular with its conformer and atom count
+        rshape = V.choose(["3x3", "2x3x3", "3x4"], "matrix-shape")
+        if rshape == "3x3":
+            R = NP.mk([[V.sym(f"r{i}{j}", "real") for j in range(3)] for i in range(3)])
+        elif rshape == "2x3x3":
+            R = NP.mk([[[V.sym(f"r{c}{i}{j}", "real") for j in range(3)] for i in range(3)] for c in range(2)])
+        else:
+            R = NP.mk([[V.sym(f"r{i}{j}", "real") for j in range(4)] for i in range(3)])
         out = V.method(e, "rotate", [R], qual=f"{ENS}.rotate"); V.dbg=(out, out.exc and out.exc.fields)
-        V.ensure("post/returns", z3.BoolVal(out.returned))
+        if rshape == "3x3":
+            V.ensure("post/returns", z3.BoolVal(out.returned))
+        c_ = e.fields["_coords"]
+        V.ensure("post/rotate-keeps-the-conformer-and-atom-count", z3.BoolVal(isinstance(c_, NdArr) and tuple(c_.tail) == (nc, na, 3)))
     M.ensure_rect(V, e, "post/rect")
     V.ensure("frame/charges-and-weights-untouched", I.and_(_rows_equal(I, e.fields["_atomic_charges"].data, q0),
                                                           _rows_equal(I, e.fields["_weights"].data, w0)))
